@@ -45,7 +45,7 @@ CONFIG = {
     'must_sig': ['case:A_before_B', 'case:same_var', 'case:B_before_A',
                  'case:terminal_operand', 'restrict:var_absent',
                  'restrict:var_at_root', 'restrict:var_inside',
-                 'site:pyModelChecking.BDD.OBDD:*', 'sparse:4vars', 'sparse:5vars'],
+                 'site:pyModelChecking.BDD.OBDD:*', 'sparse:4vars', 'sparse:5vars', 'systematic:3x2_subsets'],
     'rule': ('cases = (operation, operand functions, ordering); enumerated: '
              'all 65,536 ordered pairs of the 256 Boolean functions of 3 '
              'variables for & | ^ (each pair under one ordering rotated '
@@ -296,19 +296,20 @@ def attach():
                         ('variables', _wrap_variables)):
             orig = C.__dict__[name]
             setattr(C, name, w(orig))
-        probes.watch([('apply', bm.apply), ('compute', bm.compute),
-                      ('BDDsons_and_BDD', bm.BDDsons_and_BDD),
-                      ('BDD_and_BDDsons', bm.BDD_and_BDDsons),
-                      ('BDDsons_and_BDDsons', bm.BDDsons_and_BDDsons),
-                      ('cache_restrict', bm.cache_restrict),
-                      ('compute_restrict', bm.compute_restrict),
-                      ('NT.__invert__',
-                       bm.BDDNonTerminalNode.__dict__['__invert__']),
-                      ('T.__invert__',
-                       bm.BDDTerminalNode.__dict__['__invert__']),
-                      ('ListOrdering.cmp', od.ListOrdering.__dict__['cmp']),
-                      ('ListOrdering.in_order',
-                       od.ListOrdering.__dict__['in_order'])])
+        # reach probes on private helpers: skipped when a refactoring
+        # removed them
+        priv = [(n, getattr(bm, n, None)) for n in
+                ('apply', 'compute', 'BDDsons_and_BDD', 'BDD_and_BDDsons',
+                 'BDDsons_and_BDDsons', 'cache_restrict',
+                 'compute_restrict')]
+        priv += [('NT.__invert__',
+                  bm.BDDNonTerminalNode.__dict__.get('__invert__')),
+                 ('T.__invert__',
+                  bm.BDDTerminalNode.__dict__.get('__invert__')),
+                 ('ListOrdering.cmp', od.ListOrdering.__dict__.get('cmp')),
+                 ('ListOrdering.in_order',
+                  od.ListOrdering.__dict__.get('in_order'))]
+        probes.watch([(n, f) for n, f in priv if f is not None])
         return True
     return mon.attach_once('c17', do)
 
@@ -418,6 +419,36 @@ def run(ctx):
             A.restrict(v, k % 2)
             (A | B).restrict(v, (k + 1) % 2)
         (A ^ B).variables()
+    # systematic: EVERY function of a 3-subset against EVERY function of a
+    # 2-subset of four variables, under sampled orderings (all in thorough)
+    import itertools as _it
+    V4 = ['a', 'b', 'c', 'd']
+    combos = []
+    for s3 in _it.combinations(V4, 3):
+        for s2 in _it.combinations(V4, 2):
+            for o in _it.permutations(V4):
+                combos.append((s3, s2, o))
+    rc = gen.rng(ctx.seed, PROP, 'combos')
+    rc.shuffle(combos)
+    ncomb = 16 if ctx.quick else 200
+    for ci, (s3, s2, o) in enumerate(combos[:ncomb]):
+        if not ctx.mine(ci):
+            continue
+        _cache.clear()
+        LOG.sig['systematic:3x2_subsets'] += 1
+        G = [OBDD(refbool.expr_of_tt(tg, list(s2), tg % 3), list(o))
+             for tg in range(16)]
+        for tf in range(256):
+            Fo = OBDD(refbool.expr_of_tt(tf, list(s3), tf % 3), list(o))
+            for g in G:
+                Fo & g
+                Fo | g
+                Fo ^ g
+                if tf % 16 == 0:
+                    g & Fo
+                    g ^ Fo
+            for v in V4:
+                Fo.restrict(v, tf % 2)
     # orderings that differ / variables outside the ordering
     for k in range(40):
         if not ctx.mine(k):
